@@ -157,7 +157,7 @@ Definition skip_field (typ : N) (b : list N) : option (list N) :=
 (* protowire.ConsumeFieldValue(num, typ, b): as [skip_field], plus groups: a start-group consumes fields up to the
    end-group tag, whose field number must equal [num]; nesting limited by DefaultRecursionLimit = 10000
    (`depth < 0` fails, so 10001 nested levels pass). Every tag inside a group goes through ConsumeTag. *)
-Fixpoint group_loop_pw (skipv : N -> N -> list N -> option (list N)) (num : N) (k : nat) (b : list N)
+Fixpoint group_loop_pw (skipv : nat -> N -> N -> list N -> option (list N)) (num : N) (k : nat) (b : list N)
   : option (list N) :=
   match k with
   | O => None
@@ -166,24 +166,26 @@ Fixpoint group_loop_pw (skipv : N -> N -> list N -> option (list N)) (num : N) (
       | None => None
       | Some (num2, typ2, b1) =>
           if typ2 =? 4 then (if num2 =? num then Some b1 else None)
-          else match skipv num2 typ2 b1 with
+          else match skipv k' num2 typ2 b1 with
                | None => None
                | Some b2 => group_loop_pw skipv num k' b2
                end
       end
   end.
 
-Fixpoint skip_value_pw (d : nat) (num typ : N) (b : list N) : option (list N) :=
+(* [d] = nesting levels still allowed, [k] = fuel for the group loops, any k >= length b (every field consumes
+   at least its tag byte; see skip_value_pw_fuel: the fuel never decides the result) *)
+Fixpoint skip_value_pw (d : nat) (k : nat) (num typ : N) (b : list N) : option (list N) :=
   if typ =? 3 then
     match d with
     | O => None
-    | S d' => group_loop_pw (skip_value_pw d') num (length b) b
+    | S d' => group_loop_pw (skip_value_pw d') num k b
     end
   else skip_field typ b.
 
 Definition pw_recursion_levels : nat := N.to_nat 10001.
 Definition skip_field_pw (num typ : N) (b : list N) : option (list N) :=
-  skip_value_pw pw_recursion_levels num typ b.
+  skip_value_pw pw_recursion_levels (length b) num typ b.
 
 (* skipNebula (generated): starts AT THE TAG. One item of its loop: new depth and rest. The tag's field number is
    not looked at (0 is fine), end-group tags are not matched against start-group tags, nesting is unbounded. *)
@@ -693,7 +695,7 @@ Proof. intros H. cbn [skip_field]. change 4 with (N.of_nat 4). rewrite <- H, tak
 Lemma skip_field_groups_rejected b : skip_field 3 b = None /\ skip_field 4 b = None /\ skip_field 6 b = None /\ skip_field 7 b = None.
 Proof. repeat split; reflexivity. Qed.
 
-Lemma skip_value_pw_nongroup d num typ b : typ <> 3 -> skip_value_pw d num typ b = skip_field typ b.
+Lemma skip_value_pw_nongroup d k num typ b : typ <> 3 -> skip_value_pw d k num typ b = skip_field typ b.
 Proof.
   intros H. destruct d; cbn [skip_value_pw]; (destruct (typ =? 3) eqn:E; [apply N.eqb_eq in E; contradiction|reflexivity]).
 Qed.
@@ -702,7 +704,7 @@ Lemma skip_field_pw_nongroup num typ b : typ <> 3 -> skip_field_pw num typ b = s
 Proof. apply skip_value_pw_nongroup. Qed.
 
 Lemma group_loop_pw_shorter skipv num
-  (Hs : forall n t b r, skipv n t b = Some r -> (length r <= length b)%nat) k :
+  (Hs : forall k n t b r, skipv k n t b = Some r -> (length r <= length b)%nat) k :
   forall b r, group_loop_pw skipv num k b = Some r -> (length r < length b)%nat.
 Proof.
   induction k as [|k IH]; intros b r H; [discriminate|]. cbn [group_loop_pw] in H.
@@ -710,12 +712,13 @@ Proof.
   apply tag_dec_shorter in T.
   destruct (t2 =? 4).
   - destruct (n2 =? num); [|discriminate]. inversion H; subst. assumption.
-  - destruct (skipv n2 t2 b1) as [b2|] eqn:Sk; [|discriminate]. apply Hs in Sk. apply IH in H. lia.
+  - destruct (skipv k n2 t2 b1) as [b2|] eqn:Sk; [|discriminate]. apply Hs in Sk. apply IH in H. lia.
 Qed.
 
-Lemma skip_value_pw_shorter d : forall num typ b r, skip_value_pw d num typ b = Some r -> (length r <= length b)%nat.
+Lemma skip_value_pw_shorter d : forall k num typ b r,
+  skip_value_pw d k num typ b = Some r -> (length r <= length b)%nat.
 Proof.
-  induction d as [|d IH]; intros num typ b r H; cbn [skip_value_pw] in H; destruct (typ =? 3).
+  induction d as [|d IH]; intros k num typ b r H; cbn [skip_value_pw] in H; destruct (typ =? 3).
   - discriminate.
   - eapply skip_field_shorter; eassumption.
   - apply group_loop_pw_shorter in H; [lia|exact IH].
@@ -725,9 +728,10 @@ Qed.
 Lemma skip_field_pw_shorter num typ b r : skip_field_pw num typ b = Some r -> (length r <= length b)%nat.
 Proof. apply skip_value_pw_shorter. Qed.
 
-(* the group loop's fuel (number of bytes) is never what stops it *)
+(* the fuel (number of bytes) is never what stops the group loops *)
 Lemma group_loop_pw_fuel2 skipv num
-  (Hs : forall n t b r, skipv n t b = Some r -> (length r <= length b)%nat) k1 :
+  (Hs : forall k n t b r, skipv k n t b = Some r -> (length r <= length b)%nat)
+  (Hf : forall k1 k2 n t b, (length b <= k1)%nat -> (length b <= k2)%nat -> skipv k1 n t b = skipv k2 n t b) k1 :
   forall k2 b, (length b <= k1)%nat -> (length b <= k2)%nat ->
   group_loop_pw skipv num k1 b = group_loop_pw skipv num k2 b.
 Proof.
@@ -737,14 +741,55 @@ Proof.
     cbn [group_loop_pw].
     destruct (tag_dec b) as [[[n2 t2] b1]|] eqn:T; [|reflexivity].
     apply tag_dec_shorter in T. destruct (t2 =? 4); [reflexivity|].
-    destruct (skipv n2 t2 b1) as [b2|] eqn:Sk; [|reflexivity]. apply Hs in Sk.
+    rewrite (Hf k1 k2 n2 t2 b1) by lia.
+    destruct (skipv k2 n2 t2 b1) as [b2|] eqn:Sk; [|reflexivity]. apply Hs in Sk.
     apply IH; lia.
 Qed.
 
-Lemma group_loop_pw_fuel skipv num
-  (Hs : forall n t b r, skipv n t b = Some r -> (length r <= length b)%nat) k b :
-  (length b <= k)%nat -> group_loop_pw skipv num k b = group_loop_pw skipv num (length b) b.
-Proof. intros L. apply group_loop_pw_fuel2; [exact Hs|exact L|lia]. Qed.
+Lemma skip_value_pw_fuel d : forall k1 k2 num typ b, (length b <= k1)%nat -> (length b <= k2)%nat ->
+  skip_value_pw d k1 num typ b = skip_value_pw d k2 num typ b.
+Proof.
+  induction d as [|d IH]; intros k1 k2 num typ b L1 L2; cbn [skip_value_pw]; destruct (typ =? 3); try reflexivity.
+  apply group_loop_pw_fuel2; [apply skip_value_pw_shorter|exact IH|exact L1|exact L2].
+Qed.
+
+(* fuel-free unfolding of a group body: fields up to the matching end-group tag *)
+Definition group_run_pw (d : nat) (num : N) (b : list N) : option (list N) :=
+  group_loop_pw (skip_value_pw d) num (length b) b.
+
+Lemma group_run_pw_unfold d num b :
+  group_run_pw d num b =
+  match tag_dec b with
+  | None => None
+  | Some (num2, typ2, b1) =>
+      if typ2 =? 4 then (if num2 =? num then Some b1 else None)
+      else match skip_value_pw d (length b1) num2 typ2 b1 with
+           | None => None
+           | Some b2 => group_run_pw d num b2
+           end
+  end.
+Proof.
+  unfold group_run_pw. destruct b as [|x b'].
+  - reflexivity.
+  - set (b := x :: b'). change (length b) with (S (length b')). cbn [group_loop_pw].
+    destruct (tag_dec b) as [[[n2 t2] b1]|] eqn:T; [|reflexivity].
+    apply tag_dec_shorter in T. change (length b) with (S (length b')) in T.
+    destruct (t2 =? 4); [reflexivity|].
+    rewrite (skip_value_pw_fuel d (length b') (length b1)) by lia.
+    destruct (skip_value_pw d (length b1) n2 t2 b1) as [b2|] eqn:Sk; [|reflexivity].
+    apply skip_value_pw_shorter in Sk.
+    apply group_loop_pw_fuel2; [apply skip_value_pw_shorter|apply skip_value_pw_fuel|lia|lia].
+Qed.
+
+Lemma skip_value_pw_group d k num b : (length b <= k)%nat ->
+  skip_value_pw (S d) k num 3 b = group_run_pw d num b.
+Proof.
+  intros L. cbn [skip_value_pw]. change (3 =? 3) with true. cbv iota. unfold group_run_pw.
+  apply group_loop_pw_fuel2; [apply skip_value_pw_shorter|apply skip_value_pw_fuel|exact L|lia].
+Qed.
+
+Lemma pw_recursion_levels_S : pw_recursion_levels = S (N.to_nat 10000).
+Proof. unfold pw_recursion_levels. change 10001 with (N.succ 10000). apply N2Nat.inj_succ. Qed.
 
 Example skip_field_pw_group :
   (* field 9 start-group { field 1 varint 5; field 2 group { } } end-group 9, then 7 *)
